@@ -99,6 +99,13 @@ CHECKS = {
              'format_with_width returns the input on refusal.',
         note='Multi-file order in format_many is read, not proved (assumed contract). Trusted: environment shims.',
         ref='DESIGN.md 5/C16', technique=TECH),
+    'C19': dict(
+        text='Proof: at the sort site of convert_import_items the items are only ever permuted, and keep their order unless the option is '
+             'on, no item is a comment and the bound names are pairwise distinct; check_import_name_duplication returns true iff the bound '
+             'names (last path segment / name after `as`) are pairwise distinct; Config::default has the option off; to_config passes the flag.',
+        note='Not covered: that nothing else in the output differs (the flag is read only at this site: a grep-level fact). Trusted: sort_by_key '
+             'is a permutation (shim), HashSet insert shim, accessor shims for bound names.',
+        ref='DESIGN.md 5/C19', technique=TECH),
 }
 
 NOT_APPLICABLE = {
